@@ -39,7 +39,14 @@ def ENCODED():
     T = so.TFLiteSupportedOperators
     return [sch.Scheduler.propose_operator_buffering, lr.LiveRangeGraph.get_temporal_memory_usage, T.constraint_resize,
             T.constraint_resizebi_half_pixel_centers_dims, T.constraint_stride_width_no_upper_limit, T.constraint_broadcast_shapes,
-            T.constraint_tconv_same, T.constraint_tconv_valid, T.constraint_depth_multiplier, vela.main]
+            T.constraint_tconv_same, T.constraint_tconv_valid, T.constraint_depth_multiplier, vela.main,
+            __import__("ethosu.vela.tflite_graph_optimiser", fromlist=["x"]).optimise_quantize,
+            __import__("ethosu.vela.tflite_graph_optimiser", fromlist=["x"]).convert_shape_op_to_constant_tensor,
+            __import__("ethosu.vela.tflite_graph_optimiser", fromlist=["x"]).convert_resize_to_upscale_and_average_pool,
+            __import__("ethosu.vela.tflite_graph_optimiser", fromlist=["x"]).convert_resizenn_ac_to_depthwise_conv,
+            __import__("ethosu.vela.tensor", fromlist=["x"]).QuantizationParameters.is_per_axis,
+            __import__("ethosu.vela.tensor", fromlist=["x"]).QuantizationParameters.is_scaling_equal,
+            T.constraint_tens_quant_per_axis, T.constraint_matching_quantization_parameters]
 
 
 class _O:
